@@ -62,6 +62,51 @@ pub fn fault_point(label: &'static str) {
     }
 }
 
+static REAL_GUARDS: std::sync::atomic::AtomicUsize = std::sync::atomic::AtomicUsize::new(0);
+
+/// The running task holds a lock of a *real* (not simulated) primitive from now on --
+/// a stand-in calls this when it hands out e.g. an scc entry guard.  While any such
+/// guard is held the scheduler does not switch away from the task as long as it is
+/// runnable: in the one OS thread of the simulator another task that wanted the same real
+/// lock would block for good, although in a real run it would simply wait its turn.
+pub fn real_guard_enter() {
+    REAL_GUARDS.fetch_add(1, std::sync::atomic::Ordering::Relaxed);
+}
+
+pub fn real_guard_exit() {
+    let _ = REAL_GUARDS.fetch_update(std::sync::atomic::Ordering::Relaxed, std::sync::atomic::Ordering::Relaxed, |v| Some(v.saturating_sub(1)));
+}
+
+pub fn real_guards_held() -> usize {
+    REAL_GUARDS.load(std::sync::atomic::Ordering::Relaxed)
+}
+
+pub fn real_guards_reset() {
+    REAL_GUARDS.store(0, std::sync::atomic::Ordering::Relaxed);
+}
+
+/// Token for one held real guard (counts up on creation, down on drop).
+pub struct RealGuard(());
+
+impl RealGuard {
+    pub fn new() -> Self {
+        real_guard_enter();
+        RealGuard(())
+    }
+}
+
+impl Default for RealGuard {
+    fn default() -> Self {
+        Self::new()
+    }
+}
+
+impl Drop for RealGuard {
+    fn drop(&mut self) {
+        real_guard_exit();
+    }
+}
+
 /// A labelled scheduling point: the simulated thread may be descheduled here
 /// (also a fault point).
 pub fn sched_point(label: &'static str) {
